@@ -184,7 +184,7 @@ func specParsed(p *FrameParser) bool {
 //@ func SetBPFAndDrain
 //@ safety C10
 // (dropAllFilter is the one-instruction literal of cbpf_filters.go; the C12 lemma reads the same literal)
-//@ requires[pre.filter]      len(filter) >= 1 && c != nil && len(dropAllFilter) >= 1
+//@ requires[pre.filter]      len(filter) >= 1 && c != nil
 //@ ensures[C10.drain.class]  ret0 != nil ==> noRepoErr(ret0)
 //@ ensures[C10.drain.set]    lastres(SetBPF, 0) != nil ==> ret0 != nil && wraps(ret0, lastres(SetBPF, 0))
 //@ ensures[C10.drain.recv]   ncalls(Recvfrom) > old(ncalls(Recvfrom)) && lastres(Recvfrom, 2) != nil && ret0 != nil && lastres(SetBPF, 0) == nil && ncalls(SetBPF) == old(ncalls(SetBPF)) + 1 && lastres(RawConn.Control, 0) == nil ==> wraps(ret0, lastres(Recvfrom, 2))
@@ -194,6 +194,26 @@ func specParsed(p *FrameParser) bool {
 //@ func SetBPFAndDrain$1
 //@ inline
 //@ loop 1 invariant[drain.last] ncalls(Recvfrom) >= old(ncalls(Recvfrom)) && (ncalls(Recvfrom) > old(ncalls(Recvfrom)) ==> recvErr == lastres(Recvfrom, 2)) && (recvErr != nil ==> noRepoErr(recvErr))
+
+//@ func RemoveBPF
+//@ safety C10
+//@ requires[pre.conn]        c != nil
+//@ ensures[C10.rm.ctl]       ncalls(RawConn.Control) > old(ncalls(RawConn.Control)) && lastres(RawConn.Control, 0) != nil ==> ret0 != nil && wraps(ret0, lastres(RawConn.Control, 0))
+//@ ensures[C10.rm.sockopt]   ncalls(SetsockoptInt) > old(ncalls(SetsockoptInt)) && lastres(SetsockoptInt, 0) != nil ==> ret0 != nil && wraps(ret0, lastres(SetsockoptInt, 0))
+//@ ensures[C10.rm.class]     ret0 != nil ==> noRepoErr(ret0)
+//@ modifies nothing
+
+// Installing a filter on the capture socket: success means the program selected for exactly this specification was
+// attached by this very call (nothing is remembered from earlier calls); every failure comes back wrapped.
+//@ func (*afPacketSource).SetPacketFilter
+//@ safety C10 C12
+//@ requires[pre.nonnil]      a != nil && a.sock != nil
+//@ ensures[C12.afp.install]  spec.FilterType != FilterTypeNone && ret0 == nil ==> ncalls(getClassicBPFFilter) == old(ncalls(getClassicBPFFilter)) + 1 && lastarg(getClassicBPFFilter, spec).FilterType == spec.FilterType && lastarg(getClassicBPFFilter, spec).FilterConfig.Src == spec.FilterConfig.Src && lastarg(getClassicBPFFilter, spec).FilterConfig.Dst == spec.FilterConfig.Dst && ncalls(SetBPFAndDrain) == old(ncalls(SetBPFAndDrain)) + 1 && lastarg(SetBPFAndDrain, filter) == lastres(getClassicBPFFilter, 0) && lastres(SetBPFAndDrain, 0) == nil
+//@ ensures[C12.afp.remove]   spec.FilterType == FilterTypeNone && ret0 == nil ==> ncalls(RemoveBPF) == old(ncalls(RemoveBPF)) + 1 && lastres(RemoveBPF, 0) == nil
+//@ ensures[C10.afp.set.fail] ncalls(SetBPFAndDrain) > old(ncalls(SetBPFAndDrain)) && lastres(SetBPFAndDrain, 0) != nil ==> ret0 != nil && wraps(ret0, lastres(SetBPFAndDrain, 0))
+//@ ensures[C10.afp.sel.fail] ncalls(getClassicBPFFilter) > old(ncalls(getClassicBPFFilter)) && lastres(getClassicBPFFilter, 1) != nil ==> ret0 != nil && wraps(ret0, lastres(getClassicBPFFilter, 1))
+//@ ensures[C10.afp.rm.fail]  ncalls(RemoveBPF) > old(ncalls(RemoveBPF)) && lastres(RemoveBPF, 0) != nil ==> ret0 != nil && wraps(ret0, lastres(RemoveBPF, 0))
+//@ modifies nothing
 
 // ---- C09 at the capture boundary (linux): what the AF_PACKET socket delivers is arbitrary bytes. A frame that cannot
 // even carry an ethernet header is skipped like a non-IP frame; the only errors Read reports are the socket's own.
@@ -278,11 +298,13 @@ func specParsed(p *FrameParser) bool {
 //@ ensures[C12.select.udp]    spec.FilterType == FilterTypeUDP ==> ret1 == nil && ret0 == udpFilter
 //@ ensures[C12.select.synack] spec.FilterType == FilterTypeSYNACK ==> ret1 == nil && ret0 == tcpSynackFilter
 //@ ensures[C12.select.none]   !(spec.FilterType == FilterTypeICMP || spec.FilterType == FilterTypeUDP || spec.FilterType == FilterTypeSYNACK || spec.FilterType == FilterTypeTCP) ==> ret1 != nil && ret0 == nil
+//@ ensures[C12.select.nonempty] ret1 == nil ==> len(ret0) >= 1
 //@ ensures[C12.select.tcp]    spec.FilterType == FilterTypeTCP && !(spec.FilterConfig.Src.Addr().Is4() && spec.FilterConfig.Dst.Addr().Is4()) ==> ret1 != nil
 
 //@ func (FilterConfig).GenerateTCP4Filter
 //@ safety C12
 //@ ensures[C12.tcp.err]       !(c.Src.Addr().Is4() && c.Dst.Addr().Is4()) ==> ret1 != nil && ret0 == nil
+//@ ensures[C12.tcp.nonempty]  ret1 == nil ==> len(ret0) >= 1
 //@ note the program itself is covered by the bit-vector lemma packets.GenerateTCP4Filter#C12.exact (govc bpf)
 
 //@ func AllocPacketID
